@@ -46,6 +46,7 @@ def _mask_case(job):
               "right border": (fw - bw, 2), "top border": (3, 0),
               "bottom border": (3, fh - bh), "top-left corner": (0, 0),
               "bottom-right corner": (fw - bw, fh - bh)}
+    stack, direct = [], []
     for where, (px, py) in places.items():
         ox, oy = px - (min(xs) - 1), py - (min(ys) - 1)
         m = np.zeros((fh, fw), dtype=bool)
@@ -53,6 +54,8 @@ def _mask_case(job):
             m[y - 1 + oy, x - 1 + ox] = True
         try:
             c = get_contour(m)
+            stack.append(m)
+            direct.append(np.asarray(c))
         except BaseException as exc:
             out.append(("get_contour raises %s (%s mask, %s)" % (
                 type(exc).__name__, "single-pixel" if len(cells) == 1
@@ -104,6 +107,29 @@ def _mask_case(job):
             except BaseException as exc:
                 out.append(("get_volume raises " + type(exc).__name__,
                             repr(exc)[:100]))
+    # the contours of a stack of masks, read event by event in an order
+    # with repetitions: contour i is the contour of mask i whatever was
+    # read before
+    if len(stack) >= 3:
+        import zlib
+        from dclab.features.contour import get_contour_lazily
+        lazy = get_contour_lazily(np.array(stack))
+        k = zlib.crc32(repr(sorted(cells)).encode())
+        order = [0, 0, 1, 1, 2, 1, 0] + [(k >> (3 * j)) % len(stack)
+                                         for j in range(8)] + [1, 2, 2, 0]
+        for pos, i in enumerate(order):
+            try:
+                got = np.asarray(lazy[i])
+            except BaseException as exc:
+                out.append(("reading the contour of an event raises "
+                            + type(exc).__name__, "order %s" % order[:pos + 1]))
+                break
+            if not np.array_equal(got, direct[i]):
+                out.append(("contour of an event read from a stack of masks "
+                            "is not the contour of its mask",
+                            "mask %s read order %s" % (sorted(cells),
+                                                       order[:pos + 1])))
+                break
     return {"mask": sorted(cells)}, out
 
 
